@@ -149,6 +149,35 @@ def run_case(a):
                     cur = {k2: v2 for k2, v2 in now.items() if k2.endswith(".ts")}
                     if cur != ref:
                         viol.append(("C14 forced-output-differs-between-cache-states path=%s" % path, "forced generation from cache state %s differs from the first forced generation" % state, wit))
+        # ---- (c) a plain re-run after a forced one (and with another verbosity) must again be a no-op: force and
+        #          verbosity are not inputs of the generated files
+        if path == "cli":
+            for label, extra_args in (("after-forced-run", []), ("with---verbose", ["--verbose"])):
+                before = fsmon.snapshot(out)
+                time.sleep(0.002)
+                argv = [cli, "tauri-typegen", "generate", "-p", src, "-o", out, "-v", mode] + extra_args
+                if cfg:
+                    c = {"project_path": src, "output_path": out, "validation_library": mode}
+                    c.update(cfg)
+                    cp = os.path.join(root, "typegen.cfg.json")
+                    json.dump(c, open(cp, "w"))
+                    argv += ["-c", cp]
+                r3 = common.run(argv, cwd=root, hash_seed=seed * 5 + 11)
+                st["second_runs"] += 1
+                d = fsmon.diff(before, fsmon.snapshot(out))
+                changed = [p for p in d["created"] + d["deleted"] + d["modified"] + d["touched"] if p != ".write_test"]
+                if r3.rc == 0 and changed:
+                    viol.append(("C14 rerun-touches-output path=cli %s" % label, "plain re-run %s on unchanged inputs changed %s" % (label, {k2: v2 for k2, v2 in d.items() if v2}), wit))
+        else:
+            proj.write_tauri_conf(root, "src-tauri", "gen", mode, {"typeMappings": mappings} if mappings else {})
+            before = fsmon.snapshot(out)
+            time.sleep(0.002)
+            r3, _ = proj.build_generate(drv, root, hash_seed=seed * 5 + 11)
+            st["second_runs"] += 1
+            d = fsmon.diff(before, fsmon.snapshot(out))
+            changed = [p for p in d["created"] + d["deleted"] + d["modified"] + d["touched"] if p != ".write_test"]
+            if r3.rc == 0 and changed:
+                viol.append(("C14 rerun-touches-output path=build after-forced-run", "plain re-run after force:true was removed from the configuration changed %s" % {k2: v2 for k2, v2 in d.items() if v2}, wit))
         return {"viol": viol, "st": st, "files": len(files), "mappings": nmap}
     finally:
         common.rmtree(root)
